@@ -1231,6 +1231,14 @@ impl DnsRegistry {
         false
     }
 
+    /// A service is unregistered: it does not wait for any probe any more,
+    /// and a probe that no service waits for any more is dropped.
+    pub(crate) fn remove_waiting_service(&mut self, service_name: &str) {
+        self.probing.retain(|_, probe| {
+            !(probe.waiting_services.remove(service_name) && probe.waiting_services.is_empty())
+        });
+    }
+
     /// check all records in "probing" and "active":
     /// if the record is SRV, and hostname is set to original, remove it.
     /// and create a new SRV with "host" set to "new_name" and put into "probing".
